@@ -291,8 +291,29 @@ def parse_csv_bytes(data, delim=',', policy='quoted'):
     return [csv_utils.smart_split(l, delim, policy, False)[0] for l in lines]
 
 
+def cli_dialect_leg(res):
+    """which dialects the command line hands to query_csv, for every delimiter spelling x explicit policy x out-format: the decision
+    logic of Model/Cli.lean (theorems C13_cli_out_format_input / _named / _default_policy / _delim_spelling) against the REAL
+    run_with_python_csv (query_csv replaced by a recorder)"""
+    from common import enc_str
+    delims = [',', ';', ' ', '\t', 'TAB', '\\t', '|', '##', 'a', 'tab', 'T', '  ', ',;', ':', 'TABS']
+    lines = []
+    for d in delims:
+        for pol in ['~', 'simple', 'quoted', 'quoted_rfc', 'whitespace', 'monocolumn']:
+            for fmt in ['input', 'csv', 'tsv']:
+                lines.append('clidialect %s %s %s' % (enc_str(d), pol, fmt))
+    bad = common.differential(res, lines, impls=('py',))
+    for ln in lines:
+        res.nontrivial.add(('clidialect', ln))
+    res.exhaustive['command-line dialect selection: %d delimiter spellings x {no policy, 5 policies} x {input, csv, tsv}' % len(delims)] = True
+    for b in bad[:3]:
+        res.violations.append({'property': 'C13', 'impl': 'py', 'why': 'the command line selects another CSV dialect than its model (Model/Cli.lean: cliDialects)', 'line': b['line'],
+                               'model_says': b['model'], 'impl_says': b['got'], 'case_key': 'C13|clidialect|' + b['line']})
+
+
 def run(res, tier, seed):
     res.rule = RULE
+    cli_dialect_leg(res)
     res.assumptions = ['pandas itertuples / DataFrame(rows, columns) and sqlite3 cursors are faithful adapters (assumed; tied here)', 'argparse mapping is tied, not proved']
     rnd = random.Random(seed * 7001 + 13)
     cases = gen_cases(rnd, 120 if tier == 'quick' else 2500)
@@ -401,4 +422,6 @@ def run(res, tier, seed):
 def replay(res, path):
     v = json.loads(open(path).read())
     print(json.dumps(v, indent=1, ensure_ascii=False)[:3000])
+    if v.get('line'):
+        return common.replay_generic(res, path)
     return False
